@@ -254,6 +254,7 @@ func TestVerifE9DqCorr(t *testing.T) {
 		// FIFO oracle goes on, Depth() is not checked until the reader has reached the tail (then it is 0).
 		var dup [][]byte
 		killed := false
+		lastRF, lastWF := int64(0), int64(0)
 		expectDepth := int64(-1)
 		dirtyAfterReopen := false
 		metaNow := func() string {
@@ -438,6 +439,11 @@ func TestVerifE9DqCorr(t *testing.T) {
 			if clean && !killed && len(dup) > 0 && r.Intn(5) == 0 {
 				k = 95 // kill while the metadata lags behind the reader: the re-delivery clause of the kill oracle
 			}
+			if rfNow, wfNow := h.field("readFileNum"), h.field("writeFileNum"); clean && !killed && (rfNow != lastRF || wfNow != lastWF) && r.Intn(3) == 0 {
+				k = 95 // kill right after the writer rolled / the reader changed file: the metadata must have followed
+				hist["kill-after-file-change"]++
+			}
+			lastRF, lastWF = h.field("readFileNum"), h.field("writeFileNum")
 			switch {
 			case k < 46:
 				b := body()
